@@ -127,6 +127,7 @@ structure St where
   opened     : Node → Bool := fun _ => false           -- _opened_oneof_children
   additional : Node → Option Val := fun _ => none      -- _additional_data
   invCount   : Node → Nat := fun _ => 0                -- number of on_node_start per node
+  hideCount  : Node → Nat := fun _ => 0                -- ghost: how often `hide_last_execution` hit the node
   tasks      : List Task := []
   outcome    : Option Outcome := none                  -- how the caller's task ended
 
@@ -141,7 +142,18 @@ def St.setRes (s : St) (n : Node) (v : Val) : St :=
   { s with res := upd s.res n (some v), resHid := upd s.resHid n false }
 def St.hide (s : St) (ns : List Node) : St :=                                        -- hide_last_execution
   { s with resHid := fun x => if ns.contains x then true else s.resHid x,
-           procHid := fun x => if ns.contains x then true else s.procHid x }
+           procHid := fun x => if ns.contains x then true else s.procHid x,
+           hideCount := fun x => if ns.contains x then s.hideCount x + 1 else s.hideCount x }
+
+/-- named single-field updates (one frame lemma each in `Proofs/EngBasic.lean`) -/
+def St.setSw (s : St) (n : Node) (lc : Label × Node) : St := { s with sw := upd s.sw n (some lc) }
+def St.setActive (s : St) (a : List (Node × Node)) : St := { s with active := a }
+def St.setAdditional (s : St) (n : Node) (v : Val) : St := { s with additional := upd s.additional n (some v) }
+def St.setOutcome (s : St) (o : Outcome) : St := { s with outcome := some o }
+/-- `set_node_as_processed` + the invocation counter (one `on_node_start` follows) -/
+def St.markProcessed (s : St) (n : Node) : St :=
+  { s with proc := upd s.proc n true, procHid := upd s.procHid n false,
+           invCount := upd s.invCount n (s.invCount n + 1) }
 
 def hasError (s : St) (d : DagRef) : Bool := d.nodes.any s.isErr                     -- __has_subgraph_error
 
@@ -186,17 +198,24 @@ def filteredView (P : Program) (s : St) : Graph.View :=
   { okNode := fun u => !(P.g.attr u).isOneofChild || s.opened u,
     okEdge := fun e => e.case.isNone }
 
-/-- `_get_reduced_dag(source, dest, flags)`; `none` = networkx raised NodeNotFound -/
-def reduced (P : Program) (s : St) (src dst : Node) (isRec isOneof isNested : Bool) : St × Option DagRef :=
-  let s := if isOneof then { s with opened := upd s.opened dst true } else s
+/-- `_opened_oneof_children.add(dest)` when a one-of candidate is started -/
+def openCand (s : St) (isOneof : Bool) (dst : Node) : St :=
+  if isOneof then { s with opened := upd s.opened dst true } else s
+
+/-- the reduced DAG seen through the filtered view of `s`; `none` = networkx raised NodeNotFound -/
+def reducedRef (P : Program) (s : St) (src dst : Node) (isRec isOneof isNested : Bool) : Option DagRef :=
   let w := filteredView P s
   match P.g.vnodes w with
-  | [x] => (s, some { source := src, dest := none, nodes := [x] })       -- `len(dag) == 1`: returned as is
+  | [x] => some { source := src, dest := none, nodes := [x] }       -- `len(dag) == 1`: returned as is
   | _ =>
     match P.g.between w src dst with
-    | none => (s, none)
-    | some ns => (s, some { source := src, dest := some dst, nodes := ns,
-                            isRec := isRec, isOneof := isOneof, isNested := isNested })
+    | none => none
+    | some ns => some { source := src, dest := some dst, nodes := ns,
+                        isRec := isRec, isOneof := isOneof, isNested := isNested }
+
+/-- `_get_reduced_dag(source, dest, flags)` -/
+def reduced (P : Program) (s : St) (src dst : Node) (isRec isOneof isNested : Bool) : St × Option DagRef :=
+  (openCand s isOneof dst, reducedRef P (openCand s isOneof dst) src dst isRec isOneof isNested)
 
 /-- `get_connected_subgraph(self.dag.graph, start, dest, is_recurrent=True, …)` on the unfiltered graph -/
 def recGraph (P : Program) (start dst : Node) (isOneof : Bool) : Option DagRef :=
@@ -362,11 +381,10 @@ def dagInit (c : Ctx) (s : St) (obs : List Obs) (d : DagRef) (below : List Frame
 /-- `_run_node` after `_execute_node` returned `v` (manager.py 630–649) and the `finally` -/
 def nodePost (c : Ctx) (s : St) (obs : List Obs) (d : DagRef) (n : Node) (below : List Frame) (v : Val)
     (executedHere : Bool := true) : Out :=
-  let (s, obs, unlock) :=
-    if v.isRecur then
-      let (s, tid) := spawn s [.recStart d n v] (.recur n)
-      (s, obs ++ [.spawn tid (.recur n)], false)
-    else (s, obs, true)
+  -- a `Recurrent` result: start the recurrent subgraph, do not unlock the descendants
+  let unlock := !v.isRecur
+  let obs := if v.isRecur then obs ++ [.spawn s.tasks.length (.recur n)] else obs
+  let s := if v.isRecur then (spawn s [.recStart d n v] (.recur n)).1 else s
   let s := s.setRes n v
   -- fix c29fd0e: only a real value is saved, and only by the task that executed the node
   let obs := if executedHere && !v.isRecur && !v.isExc then obs ++ [.save n v] else obs
@@ -424,8 +442,7 @@ def nodeStart (c : Ctx) (s : St) (obs : List Obs) (d : DagRef) (n : Node) (force
     else block c s obs (.node d n force .evWait :: below) (.event n)
   else
     let inv := s.invCount n
-    let s := { s with proc := upd s.proc n true, procHid := upd s.procHid n false,
-                      invCount := upd s.invCount n (inv + 1) }
+    let s := s.markProcessed n
     let obs := obs ++ [.nstart n]
     match nodeKwargs c.P s n with
     | .err e => nodeFail c s obs d n below e
@@ -443,9 +460,10 @@ def oneofTry (c : Ctx) (d : DagRef) (head : Node) (below : List Frame) : St → 
     else
       raiseOut c (notify s .run) obs below (.exc e)
   | s, obs, cand :: rest =>
-    match reduced c.P s c.P.g.input cand false true true with
-    | (s, none) => raiseOut c s obs below (.exc ⟨"Other:NodeNotFound", 0, 0, 0⟩)
-    | (s, some sub) =>
+    let s := openCand s true cand
+    match reducedRef c.P s c.P.g.input cand false true true with
+    | none => raiseOut c s obs below (.exc ⟨"Other:NodeNotFound", 0, 0, 0⟩)
+    | some sub =>
       let (s, tid) := spawn s [.dagInit sub] .dag
       let obs := obs ++ [.spawn tid .dag]
       if hasError s sub || (s.exists cand && !(s.get cand).isRecur) then
@@ -483,14 +501,15 @@ def switchStart (c : Ctx) (s : St) (obs : List Obs) (d : DagRef) (n : Node) (bel
   match sel with
   | none => raiseOut c (notify s .run) obs below (.exc ⟨"SwitchNoCase", n, 0, 0⟩)
   | some (l, cn) =>
-    let s := { s with sw := upd s.sw n (some (l, cn)) }
-    match reduced c.P s g.input cn false d.isOneof false with
-    | (s, none) => raiseOut c s obs below (.exc ⟨"Other:NodeNotFound", 0, 0, 0⟩)
-    | (s, some sub) => dagInit c s obs sub (.switchRet d n :: below)
+    let s := s.setSw n (l, cn)
+    let s := openCand s d.isOneof cn
+    match reducedRef c.P s g.input cn false d.isOneof false with
+    | none => raiseOut c s obs below (.exc ⟨"Other:NodeNotFound", 0, 0, 0⟩)
+    | some sub => dagInit c s obs sub (.switchRet d n :: below)
 
 /-- error exit of `_run_recurrent_subgraph` and its two success exits -/
 def recFinish (c : Ctx) (s : St) (obs : List Obs) (n start : Node) (below : List Frame) : Out :=
-  retTo c { s with active := s.active.filter (· != (start, n)) } obs below .none
+  retTo c (s.setActive (s.active.filter (· != (start, n)))) obs below .none
 
 /-- `_run_recurrent_subgraph`: iteration `k` with the previous result `r` (manager.py 721–782) -/
 def recIter (c : Ctx) (s : St) (obs : List Obs) (d : DagRef) (n start : Node) (g : DagRef) (k : Nat) (r : Val)
@@ -498,7 +517,7 @@ def recIter (c : Ctx) (s : St) (obs : List Obs) (d : DagRef) (n start : Node) (g
   let maxIter := ((c.P.g.attr n).maxIter).getD 0
   if k < maxIter then
     let data := match r with | .recur x => x | _ => .none
-    let s := { s with additional := upd s.additional start (some data) }
+    let s := s.setAdditional start data
     dagInit c s obs g (.recIterRet d n start g k :: below)
   else
     if r.isRecur && (c.P.cfg n).useDefault then
@@ -519,7 +538,7 @@ def recStart (c : Ctx) (s : St) (obs : List Obs) (d : DagRef) (n : Node) (r : Va
   | some start =>
     if s.active.contains (start, n) then retTo c s obs below .none
     else
-      let s := { s with active := (start, n) :: s.active }
+      let s := s.setActive ((start, n) :: s.active)
       match recGraph c.P start n d.isOneof with
       | none => raiseOut c s obs below (.exc ⟨"Other:NodeNotFound", 0, 0, 0⟩)
       | some g => recIter c s obs d n start g 0 r below
@@ -541,8 +560,8 @@ def mgrFinish (c : Ctx) (s : St) (obs : List Obs) : Out :=
   let obs := match o with
     | .raised _ => obs
     | _ => obs ++ [.pcomplete o]
-  let (s, obs) := endTask c s (obs ++ [.returned o]) .ok
-  ({ s with outcome := some o }, obs)
+  let r := endTask c s (obs ++ [.returned o]) .ok
+  (r.1.setOutcome o, r.2)
 
 def mgrCheck (c : Ctx) (s : St) (obs : List Obs) : Out :=
   if !(taskErrors s).isEmpty || s.exists c.P.g.output then mgrFinish c s obs
@@ -552,28 +571,26 @@ def mgrStart (c : Ctx) (s : St) (obs : List Obs) : Out :=
   let obs := obs ++ [.pstart]
   if !c.P.poolsOk then
     let o := Outcome.error ⟨"Other:RuntimeError", 0, 0, 0⟩
-    let (s, obs) := endTask c s (obs ++ [.pcomplete o, .returned o]) .ok
-    ({ s with outcome := some o }, obs)
+    let r := endTask c s (obs ++ [.pcomplete o, .returned o]) .ok
+    (r.1.setOutcome o, r.2)
   else
-    match reduced c.P s c.P.g.input c.P.g.output false false false with
-    | (s, none) =>
+    match reducedRef c.P s c.P.g.input c.P.g.output false false false with
+    | none =>
       let o := Outcome.error ⟨"Other:NodeNotFound", 0, 0, 0⟩
-      let (s, obs) := endTask c s (obs ++ [.pcomplete o, .returned o]) .ok
-      ({ s with outcome := some o }, obs)
-    | (s, some d) =>
-      let (s, tid) := spawn s [.dagInit d] .run
-      mgrCheck c s (obs ++ [.spawn tid .run])
+      let r := endTask c s (obs ++ [.pcomplete o, .returned o]) .ok
+      (r.1.setOutcome o, r.2)
+    | some d =>
+      mgrCheck c (spawn s [.dagInit d] .run).1 (obs ++ [.spawn s.tasks.length .run])
 
 /-- CancelledError delivered to the current task at its suspension point -/
 def deliverCancel (c : Ctx) (s : St) (tk : Task) : Out :=
   match tk.frames with
   | [.mgrStart] =>
-    let (s, obs) := endTask c s [.returned .cancelled] .cancelled
-    ({ s with outcome := some .cancelled }, obs)
+    let r := endTask c s [.returned .cancelled] .cancelled
+    (r.1.setOutcome .cancelled, r.2)
   | [.mgrWait] =>
-    let s := cancelTasks s (liveTasks s c.t)
-    let (s, obs) := endTask c s [.returned .cancelled] .cancelled
-    ({ s with outcome := some .cancelled }, obs)
+    let r := endTask c (cancelTasks s (liveTasks s c.t)) [.returned .cancelled] .cancelled
+    (r.1.setOutcome .cancelled, r.2)
   | fs => raiseOut c s [] fs .cancelled
 
 /-- one atomic section of task `c.t` -/
